@@ -166,6 +166,9 @@ def check(case, assemblies, stats, classes, exact):
         if not solid:
             continue
         want_key = hp or "none"
+        if case.get("primary_mode"):
+            # Primary mode: painted scaffolds belong to the curated (first) haplotype, written as the "Primary" assembly
+            want_key = "primary" if hp in (None, haps[0] if haps else None) else hp
         got = [s for s in by_key.get(want_key, []) if s["orig"] == pname and s["rank"] in (1, 2) and "_unloc_" not in s["name"]]
         if len(got) != 1:
             raise Violation(
